@@ -4,6 +4,7 @@ mod art;
 mod flags;
 mod probe;
 mod util;
+mod xform;
 
 use std::io::Write;
 
@@ -37,6 +38,7 @@ fn main() {
         "art" => art::run(seed, count, maxn, &mode, &mut out),
         "flags" => flags::run(seed, count, &mut out),
         "probe" => probe::run(&mode),
+        "xform" => xform::run(seed, count, maxn, &mode, &mut out),
         other => {
             eprintln!("unknown channel {other}");
             std::process::exit(2);
